@@ -11,8 +11,13 @@ Because `Objective` is arbitrary, every theorem about `updateEstimate` / `loop` 
 `use_subset_sensitivities` (`Problem.setUpOk` feeds `Objective.setUpOk`, the only new thing `setUp` looks at), and the
 sensitivity of a non-TOF back projector (`Problem.sensRows`).  The harness exercises exactly these configurations against
 the real code; the theorems did not have to be re-proved or weakened for them.
+
+Object re-use (section "one object, several runs" at the end): `C08_reuse_eq_fresh` reduces every run of a history on ONE
+`OSSPSReconstruction` object (set_up → run → change anything → set_up → run …) to the run of a fresh object, so every theorem
+above about `setUp` / `run` / `loop` applies to each run of such a history, with the objective function (data, normalisation,
+prior) and parameters current at that run; the harness drives these histories through the real code (`recfg` / `resetup` ops).
 -/
-import StirVerif.C08.ProofsExt
+import StirVerif.C08.ProofsReuse
 
 namespace StirVerif.C08
 
@@ -502,5 +507,83 @@ example : setUpFile witParams witObjPrior ((1 : Nat) + 1 : Int) witChars (.image
   (C08_restart_eq_saved_denominator witParams witObjPrior [5, 1] [5, 1] [0, 1] 1 (le_refl _)
     (by simp [setUp, precomputeDenominator, witParams, witObjPrior]) rfl (fun _ _ _ _ => rfl) (Or.inl rfl)
     witChars witChars C08_same_characteristics_examples.1).1
+
+/-! ## one object, several runs -/
+
+/-- "D the strictly positive precomputed curvature (minus the approximate log-likelihood Hessian applied to a uniform image,
+    plus twice the prior's surrogate curvature)" — for an object that has been set up and run before: `set_up` succeeds or
+    refuses, and returns the image and the stored denominator, exactly as on a fresh object (`old = none`), whatever denominator
+    `old` the earlier run left (after a run with a prior: data part + 2·curvature; possibly for other data).  With `precomputed
+    denominator` not given the stored denominator is minus the approximate Hessian of the CURRENT objective function on the
+    uniform image, and the first sub-iteration of the new run divides by that plus twice the prior's curvature — once, not once
+    per earlier run. -/
+theorem C08_setup_again_resets_denominator (p : Params) (obj : Objective) (start : Int) (file : Option (Chars × DenomFile))
+    (old : Option Img) (target : Img) :
+    setUpObject p obj start file old target = setUpObject p obj start file none target ∧
+    (∀ img d, file = none → p.denominatorOnes = false → setUpObject p obj start file old target = some (img, d) →
+      d = obj.hessOnes.map (fun a => -a) ∧
+      ∀ x, denomUsed obj true x d
+        = thresholdMinToSmallPositiveValue
+            (if obj.priorIsZero then obj.hessOnes.map (fun a => -a)
+             else List.zipWith (fun c d => c * 2 + d) (obj.curv x) (obj.hessOnes.map (fun a => -a))) smallNumber) := by
+  refine ⟨rfl, ?_⟩
+  intro img d hf hd h
+  subst hf
+  have hd0 : d = obj.hessOnes.map (fun a => -a) := C08_denominator_after_setup p obj start target img d h hd
+  refine ⟨hd0, fun x => ?_⟩
+  rw [(C08_denominator_used obj x d).1, hd0]
+
+/-- Histories on one object: `set_up(target)` → `reconstruct(target)` → (the user changes input data, additive term,
+    normalisation, number of subsets, relaxation parameters, prior, start sub-iteration, initial image, `precomputed
+    denominator`) → `set_up` again → `reconstruct` …, any number of runs, starting from any object state `old`.
+    Every run of the history ends in exactly the state (image, stored denominator, counter) that a FRESH object configured
+    identically reaches; the history as a whole fails iff one of the `set_up`s would refuse on a fresh object. -/
+theorem C08_reuse_eq_fresh (old : Option Img) (rs : List RunSpec) :
+    (∀ ss, runHistory old rs = some ss →
+        ss.length = rs.length ∧ ∀ (i : Nat) (r : RunSpec), rs[i]? = some r → ss[i]? = runObject none r) ∧
+    (runHistory old rs = none → ∃ r ∈ rs, runObject none r = none) := by
+  rw [runHistory_eq_freshRuns]
+  exact ⟨freshRuns_get rs, freshRuns_none rs⟩
+
+/-- "With no prior or a quadratic prior, resuming from a saved iterate reproduces the uninterrupted run" when the resumed run is
+    made by RE-USING the object of the interrupted run (whatever stored denominator `old` it was left with — the interrupted
+    run's `D` includes the prior's curvature already): `set_start_subiteration_num(k+1)`, `set_up(saved image)`,
+    `reconstruct(saved image)` ends in the final state of the uninterrupted run.  Hypotheses as in `C08_restart_eq_run`. -/
+theorem C08_restart_eq_reused_object (p : Params) (obj : Objective) (target img0 d0 : Img) (k : Nat) (hk : 1 ≤ k)
+    (hK : (k : Int) < p.numSubiterations)
+    (hset : setUp p obj 1 target = some (img0, d0)) (hden : p.denominatorOnes = false)
+    (hcurv : obj.priorIsZero = false → obj.curvDepends = false → ∀ a b, obj.curv a = obj.curv b)
+    (hpos : p.enforceInitialPositivity = false ∨ ∀ v ∈ (loop p obj 1 k ⟨img0, d0, 1⟩).image, 0 < v) (old : Option Img) :
+    runObject old { p := p, obj := obj, start := (k : Int) + 1, target := (loop p obj 1 k ⟨img0, d0, 1⟩).image }
+      = run p obj 1 target := by
+  rw [runObject_computed]
+  exact C08_restart_eq_run p obj target img0 d0 k hk hK hset hden hcurv hpos
+
+/-- the quadratic-prior witness as a run of an object -/
+def witRun : RunSpec := { p := witParams, obj := witObjPrior, start := 1, target := [5, 1] }
+
+/-- the same problem with other data: the approximate Hessian on the uniform image is `[0, -3]` instead of `[0, -1]` -/
+def witRunOtherData : RunSpec := { witRun with obj := { witObjPrior with hessOnes := [0, -3] } }
+
+/-- non-vacuity of `C08_reuse_eq_fresh`, and the contrast with `C08_restart_needs_setup`: three consecutive runs on one object,
+    each after `set_up` — the second repeats the first exactly (stored denominator `[2, 3]` again, not `[4, 5]` as without
+    `set_up`), the third, after the data were changed, uses the denominator of the new data (`[0, 3] + 2·[1, 1]`), not the stale
+    one -/
+theorem C08_reuse_history_example :
+    runHistory none [witRun, witRun, witRunOtherData]
+      = some [⟨[1 / 6, 0], [2, 3], 3⟩, ⟨[1 / 6, 0], [2, 3], 3⟩, ⟨[3 / 10, 7 / 25], [2, 5], 3⟩] := by
+  have h1 : runObject none witRun = some ⟨[1 / 6, 0], [2, 3], 3⟩ := by decide +kernel
+  have h2 : runObject none witRunOtherData = some ⟨[3 / 10, 7 / 25], [2, 5], 3⟩ := by decide +kernel
+  rw [runHistory_eq_freshRuns]
+  simp only [freshRuns, h1, h2]
+
+/-- non-vacuity of `C08_restart_eq_reused_object`: the quadratic-prior witness (with a non-identifiable voxel), interrupted
+    after sub-iteration 1 and resumed on the same object, which was left with the stored denominator `[2, 3]` -/
+example : runObject (some [2, 3])
+      { p := witParams, obj := witObjPrior, start := ((1 : Nat) : Int) + 1,
+        target := (loop witParams witObjPrior 1 1 ⟨[5, 1], [0, 1], 1⟩).image }
+    = run witParams witObjPrior 1 [5, 1] :=
+  C08_restart_eq_reused_object witParams witObjPrior [5, 1] [5, 1] [0, 1] 1 (le_refl _) (by simp [witParams])
+    (by simp [setUp, precomputeDenominator, witParams, witObjPrior]) rfl (fun _ _ _ _ => rfl) (Or.inl rfl) (some [2, 3])
 
 end StirVerif.C08
